@@ -465,6 +465,10 @@ macro_rules! c08_walkers {
             if let Some(v) = r {
                 $ctx.mix(&v);
                 $crate::rep!($ctx, "Bfs", || format!("{} start {} emitted {:?}", desc(), s, v), o.check_bfs(s, &v));
+                let it: Option<Vec<usize>> = $ctx.g("Bfs::iter", &desc, || Bfs::new(g, enc.id(s)).iter(g).take(n + 2).map(|x| enc.abs(x)).collect());
+                if it.as_ref().map_or(false, |it| it != &v) {
+                    $ctx.viol("Bfs::iter", "Walker iterator yields a different sequence than next()", format!("{} start {}", desc(), s));
+                }
             }
             // ---- DfsPostOrder
             let r = $ctx.g("DfsPostOrder", &desc, || {
@@ -481,6 +485,10 @@ macro_rules! c08_walkers {
             if let Some((v, po)) = r {
                 $ctx.mix(&v);
                 $crate::rep!($ctx, "DfsPostOrder", || format!("{} start {} emitted {:?}", desc(), s, v), o.check_emitted_set(&v, &want).and_then(|_| o.check_postorder(&v)));
+                let it: Option<Vec<usize>> = $ctx.g("DfsPostOrder::iter", &desc, || DfsPostOrder::new(g, enc.id(s)).iter(g).take(n + 2).map(|x| enc.abs(x)).collect());
+                if it.as_ref().map_or(false, |it| it != &v) {
+                    $ctx.viol("DfsPostOrder::iter", "Walker iterator yields a different sequence than next()", format!("{} start {}", desc(), s));
+                }
                 for s2 in 0..n {
                     let mut p2 = po.clone();
                     let w = $ctx.g("DfsPostOrder::move_to", &desc, || {
@@ -548,6 +556,13 @@ macro_rules! c08_topo {
             if let Some((v, t)) = r {
                 $ctx.mix(&v);
                 $crate::rep!($ctx, "Topo", || format!("{} emitted {:?}", desc(), v), o.check_topo(&v, &want));
+                {
+                    use petgraph::visit::Walker;
+                    let it: Option<Vec<usize>> = $ctx.g("Topo::iter", &desc, || Topo::new(g).iter(g).take(n + 2).map(|x| enc.abs(x)).collect());
+                    if it.as_ref().map_or(false, |it| it != &v) {
+                        $ctx.viol("Topo::iter", "Walker iterator yields a different sequence than next()", format!("{}", desc()));
+                    }
+                }
                 let mut t2 = t.clone();
                 let w = $ctx.g("Topo::reset", &desc, || {
                     t2.reset(g);
